@@ -19,7 +19,10 @@
 (*                  verification can notice                                *)
 (*     "cidbit"     (CAR) a bit of the block CID flipped                   *)
 (*     "cidswap"    (CAR) the block carries the CID of another block       *)
-(*     "truncated"  the entry is cut short (the artefact ends inside it)   *)
+(*     "truncated"  the entry is cut short (the artefact ends inside it):   *)
+(*                  in the middle of its data; "truncprefix" (CAR) right   *)
+(*                  after its length prefix; "trunccid" (CAR) inside its   *)
+(*                  CID                                                    *)
 (*     "zerolen"    (CAR) a zero-length section                            *)
 (*     "oversize"   (CAR) a section length above the 32 MiB cap            *)
 (*     "nonbytes"   (CBOR) the list element is not a byte string           *)
@@ -53,7 +56,7 @@ Entry(i) == [tok |-> i, cid |-> i, state |-> "ok"]
 \* the set a reader must return for an undamaged artefact
 Written == {[cid |-> i, tok |-> i] : i \in Toks}
 
-EntryClasses(fmt) == IF fmt = "car" THEN {"databit", "resealed", "cidbit", "cidswap", "truncated", "zerolen", "oversize"}
+EntryClasses(fmt) == IF fmt = "car" THEN {"databit", "resealed", "cidbit", "cidswap", "truncated", "truncprefix", "trunccid", "zerolen", "oversize"}
                      ELSE {"databit", "resealed", "truncated", "nonbytes"}
 FrameClasses(fmt, b64) == {"version", "notmap"} \cup (IF fmt = "cbor" THEN {"extrakey"} ELSE {}) \cup (IF b64 THEN {"b64char"} ELSE {})
 
@@ -67,7 +70,7 @@ AddToken(e) ==
 
 \* one CAR block: ldRead, CidFromReader, integrity check, addToken
 CarBlock(e) ==
-  IF e.state \in {"truncated", "zerolen", "oversize"} THEN "err"
+  IF e.state \in {"truncated", "truncprefix", "trunccid", "zerolen", "oversize"} THEN "err"
   ELSE IF e.state \in {"databit", "cidbit", "cidswap"} /\ "NoIntegrityCheck" \notin Deviations THEN "err"
   ELSE AddToken(e)
 
